@@ -131,13 +131,13 @@ func ruleTerminatedAppAlwaysMoved(c *Ctx) {
 		check("UnSetQueue", call)
 	}
 	for _, w := range p.FieldWrites(p.Field("scheduler.PartitionContext.applications")) {
-		if w.Fn == fn && w.Kind == "delete" {
+		if p.inFn(w.Fn, fn) && w.Kind == "delete" {
 			n++
 			check("removal from the active application list", w.Node)
 		}
 	}
 	for _, w := range p.FieldWrites(p.Field("scheduler.PartitionContext.completedApplications")) {
-		if w.Fn == fn && w.Kind == "elem" {
+		if p.inFn(w.Fn, fn) && w.Kind == "elem" {
 			n++
 			check("registration in the completed list", w.Node)
 		}
@@ -404,7 +404,7 @@ func rulePlaceholderReleaseOnce(c *Ctx) {
 		if fn.Decl.Body == nil || !p.methodOf(fn, "objects.Application") {
 			continue
 		}
-		for _, call := range p.callsIn(fn, "objects.Allocation.SetReleased") {
+		for _, call := range p.callsInShallow(fn, "objects.Allocation.SetReleased") {
 			if len(call.Args) != 1 || !p.isConstBool(call.Args[0], true) || Recv(call) == nil {
 				continue
 			}
@@ -413,7 +413,7 @@ func rulePlaceholderReleaseOnce(c *Ctx) {
 			if !isRange || !strings.Contains(p.Src(src.E), "getPlaceholderAllocations()") {
 				continue
 			}
-			n++
+			n += p.Multiplicity(fn)
 			notYet := p.Holds(st, p.CallAtom(false, p.recvIs(T(Recv(call), st)), "objects.Allocation.IsReleased"))
 			c.Check("C06.h", "placeholder released once in "+fn.Name, call, notYet, "SetReleased(true) on a placeholder without the fact !IsReleased(): a placeholder whose replacement is in flight is released to the shim a second time (as TIMEOUT) and its real allocation is lost")
 		}
